@@ -46,17 +46,19 @@ def _segments(A):
     for b, ls in A.inner:
         it = ls.iter_term
         bt = None
+        skip = 0
         if it[0] == 'call' and it[1] == 'builtins.range' and len(it[2]) == 1:
             n = it[2][0]
-            # len(B) - 1
-            if n[0] == 'bin' and n[1] == '-' and n[3] == C(1) and n[2][0] == 'call' and n[2][1] == 'builtins.len':
+            # len(B) - c : c == 1 visits every pair of consecutive boundaries
+            if n[0] == 'bin' and n[1] == '-' and is_c(n[3]) and n[2][0] == 'call' and n[2][1] == 'builtins.len':
                 bt = n[2][2][0]
+                skip = n[3][1] - 1
         stores = []
         for kind, bb in ls.body_states:
             for eff in bb.effects:
                 if eff[0] == 'setitem' and eff[5] == A.out_name and ls.var in set(subterms(eff[2])):
                     stores.append((eff[2], eff[3], bb))
-        out.append((b, ls, bt, stores))
+        out.append((b, ls, bt, stores, skip))
     return out
 
 
@@ -113,7 +115,9 @@ def rule_cover(ctx, rid, A, tag):
     feasible = 0
     problems = {'first': None, 'last': None, 'nonempty': None, 'slices': None}
     seen = {'first': 0, 'last': 0, 'nonempty': 0, 'slices': 0}
-    for b, ls, bt, stores in segs:
+    for b, ls, bt, stores, skip in segs:
+        if skip:
+            problems['slices'] = (b, 'the segment loop stops %d segment(s) before the last boundary pair' % skip)
         if bt is None:
             problems['slices'] = (b, 'segment loop does not run over range(len(boundaries) - 1): %s'
                                   % show(ls.iter_term)[:80])
@@ -203,7 +207,7 @@ def rule_unfiltered(ctx, rid, A):
     segs = _segments(A)
     bad = None
     n = 0
-    for b, ls, bt, stores in segs:
+    for b, ls, bt, stores, skip in segs:
         if bt is None:
             continue
         parts = A.decode_boundaries(bt)
@@ -245,7 +249,7 @@ def rule_labelling(ctx, rid, A, tag):
     segs = _segments(A)
     bad = None
     n = 0
-    for b, ls, bt, stores in segs:
+    for b, ls, bt, stores, skip in segs:
         # counter: the value stored
         for idx, val, bb in stores:
             n += 1
